@@ -319,6 +319,14 @@ theorem expandW_wellOwned (p : Int → Bool) (rollE : W RollRec)
           · subst hro; exact hoOK
     exact key l hlive _ (AllW_pure _ _ ⟨by simp, by simp [RollRec.wellOwnedList, hroll]⟩)
 
+theorem chainRO_ownedOK (ops : List (Int → Int)) (a : RO) (ha : a.ownedOK = true) :
+    (chainRO ops a).ownedOK = true := by
+  induction ops generalizing a with
+  | nil => simpa [chainRO] using ha
+  | cons f fs ih =>
+    rw [chainRO]
+    exact ih _ (by simp [RO.ownedOK, RO.ownedOKList, ha])
+
 mutual
 /-- **C12, ownership clause (repaired `Roll.__init__`)**: in every roll any tree can produce, on
 every choice path, every outcome reachable through `sources` — in the roll and in all its source
@@ -376,6 +384,15 @@ theorem rollW_wellOwned : ∀ (r : RTree),
       simp only [List.mem_singleton] at hro
       subst hro
       simp [RO.ownedOK, RO.ownedOKList, sumOperand_ownedOK rs hs])
+      (by simp [RollRec.wellOwnedList, hs]))
+  | .unChain ops s => by
+    rw [rollW]
+    refine AllW_bind _ _ _ _ (rollW_wellOwned s) (fun rs hs => ?_)
+    exact AllW_pure _ _ (mkRollDeep_wellOwned _ _ (by
+      intro ro hro
+      simp only [List.mem_singleton] at hro
+      subst hro
+      exact chainRO_ownedOK ops _ (sumOperand_ownedOK rs hs))
       (by simp [RollRec.wellOwnedList, hs]))
   | .filt p srcs => by
     rw [rollW]
@@ -436,6 +453,20 @@ end
 theorem pinned_unowned_witness :
     ∃ e ∈ rollW mkRollTop
         (.bin (· + ·) (.rep 2 (.value (.hist [(1, 1), (2, 1)]))) (.value (.scalar 1))),
+      e.1.wellOwned = false := by
+  decide
+
+/-- a `Roll.__init__` that associates the outcomes and their *direct* sources only -/
+def RO.ownShallow : RO → RO
+  | .mk v srcs _ => .mk v (srcs.map RO.own) true
+def mkRollOneHop (outcomes : List RO) (sourceRolls : List RollRec) : RollRec :=
+  .mk (outcomes.map RO.ownShallow) sourceRolls
+
+/-- **one hop is not enough**: with a three-step custom operator (`lambda o: abs(o - 4) * 2`) the
+intermediate outcome two `sources` hops away stays without a roll -/
+theorem oneHop_unowned_witness :
+    ∃ e ∈ rollW mkRollOneHop
+        (.unChain [(· - 4), (fun a => (a.natAbs : Int)), (· * 2)] (.value (.hist [(1, 1), (2, 1)]))),
       e.1.wellOwned = false := by
   decide
 
